@@ -260,6 +260,15 @@ type ctx struct {
 	// function-typed parameters bound to a closure of the caller (index -> term of the closure body,
 	// produced in the CALLER's context): q.withLock(func() { ... })
 	fnArgs map[int]func() string
+	// parameters of type *sync.RWMutex that the caller bound to the mutex of its guarded instance
+	// (withLock(&q.mu, f), defer locked(&q.mu)()): lock operations on them are the instance's
+	muArgs map[int]bool
+	// locals holding q.mu.RLocker(): Lock/Unlock on them are RLock/RUnlock
+	rlockers map[*types.Var]bool
+	// the function value the last inlined callee returned (an unlock closure), as a term; and locals
+	// such values were assigned to
+	lastRetFunc string
+	funcVals    map[*types.Var]string
 	// the statement being translated is a direct child of the function body (runs unconditionally)
 	topLevel bool
 	// a, b := f(): while the i-th left-hand side is assigned, the i-th result of f is meant (-1: any)
@@ -727,8 +736,20 @@ func (c *ctx) lockOp(call *ast.CallExpr) string {
 	if name != "Lock" && name != "Unlock" && name != "RLock" && name != "RUnlock" {
 		return ""
 	}
+	if id, isId := ast.Unparen(se.X).(*ast.Ident); isId && (name == "Lock" || name == "Unlock") {
+		if v, isVar := c.info().ObjectOf(id).(*types.Var); isVar && c.rlockers[v] {
+			return "AR" + name // l := q.mu.RLocker(); l.Lock()
+		}
+	}
 	if !isRWMutex(c.typeOf(se.X)) {
 		return ""
+	}
+	if id, isId := ast.Unparen(se.X).(*ast.Ident); isId {
+		if v, isVar := c.info().ObjectOf(id).(*types.Var); isVar {
+			if pi, isParam := c.params[v]; isParam && c.muArgs[pi] {
+				return "A" + name
+			}
+		}
 	}
 	// se.X must be <instance>.mu ...
 	inner, ok := se.X.(*ast.SelectorExpr)
@@ -762,6 +783,11 @@ func (c *ctx) lockOp(call *ast.CallExpr) string {
 func (c *ctx) call(call *ast.CallExpr) string {
 	if op := c.lockOp(call); op != "" {
 		return act(op)
+	}
+	if se, ok := call.Fun.(*ast.SelectorExpr); ok && isRWMutex(c.typeOf(se.X)) {
+		if se.Sel.Name == "RLocker" {
+			return "SSkip" // a view of the mutex, no access to guarded data
+		}
 	}
 	var ps []string
 	if c.isConversion(call) {
@@ -816,6 +842,10 @@ func (c *ctx) call(call *ast.CallExpr) string {
 	// call of a local closure variable whose literal we know
 	if id, ok := call.Fun.(*ast.Ident); ok && callee == nil {
 		if v, ok := c.info().ObjectOf(id).(*types.Var); ok {
+			if t, ok := c.funcVals[v]; ok {
+				ps = append(ps, "(SCall "+t+")")
+				return seq(ps)
+			}
 			if pi, isParam := c.params[v]; isParam && c.fnArgs != nil && c.fnArgs[pi] != nil {
 				ps = append(ps, "(SCall "+c.fnArgs[pi]()+")")
 				return seq(ps)
@@ -859,6 +889,26 @@ func (c *ctx) call(call *ast.CallExpr) string {
 			actual[pi] = oset{}
 		}
 		actual[pi].add(c.origins(a))
+	}
+	c.lastRetFunc = ""
+	if mu := c.mutexArgs(call, sig); len(mu) > 0 && c.depth < 6 {
+		// withLock(&q.mu, func() { ... }), locked(&q.mu): the callee works on OUR mutex
+		sub := c.w.newCtx(fdc)
+		sub.depth = c.depth + 1
+		sub.structural = true
+		sub.spawned = c.spawned
+		sub.muArgs = mu
+		sub.fnArgs = c.closureArgs(call, sig)
+		body := sub.function()
+		for e := range sub.effs {
+			c.mapEffect(e, actual, nil)
+		}
+		if sub.ext {
+			c.ext = true
+		}
+		c.lastRetFunc = sub.returnedFunc()
+		ps = append(ps, "(SCall (* "+callee.Name()+" *) "+body+")")
+		return seq(ps)
 	}
 	if c.w.locking[callee] {
 		// a locking callee: inline structurally if it is invoked on our instance, else it is
@@ -971,6 +1021,97 @@ func (c *ctx) closureBody(fl *ast.FuncLit) string {
 	return body
 }
 
+// isInstanceMutex: e designates the mutex of a guarded instance of this function (q.mu, or a parameter
+// the caller bound to it)
+func (c *ctx) isInstanceMutex(e ast.Expr) bool {
+	e = ast.Unparen(e)
+	if u, ok := e.(*ast.UnaryExpr); ok && u.Op == token.AND {
+		e = ast.Unparen(u.X)
+	}
+	switch x := e.(type) {
+	case *ast.SelectorExpr:
+		os := c.origins(x.X)
+		if len(os) == 0 {
+			os = c.addrOrigins(x.X)
+		}
+		for o := range os {
+			if _, ok := c.inst[o.param]; ok && o.field == nil {
+				return true
+			}
+		}
+	case *ast.Ident:
+		if v, ok := c.info().ObjectOf(x).(*types.Var); ok {
+			if pi, isParam := c.params[v]; isParam {
+				return c.muArgs[pi]
+			}
+			for o := range c.locals[v] {
+				if _, ok := c.inst[o.param]; ok {
+					return true
+				}
+			}
+		}
+	}
+	return false
+}
+
+// mutexArgs: parameter positions of call that receive the mutex of our guarded instance
+func (c *ctx) mutexArgs(call *ast.CallExpr, sig *types.Signature) map[int]bool {
+	var out map[int]bool
+	for i, a := range call.Args {
+		t := c.typeOf(a)
+		if t == nil || !isRWMutex(t) {
+			continue
+		}
+		if _, isPtr := t.Underlying().(*types.Pointer); !isPtr {
+			continue
+		}
+		if !c.isInstanceMutex(a) {
+			continue
+		}
+		if out == nil {
+			out = map[int]bool{}
+		}
+		idx := i
+		if idx >= sig.Params().Len() {
+			idx = sig.Params().Len() - 1
+		}
+		out[idx] = true
+	}
+	return out
+}
+
+// returnedFunc: if every return statement of the function just walked returns one function value that
+// is an unlock on a bound mutex (a method value mu.Unlock, or a literal), its term; "" otherwise
+func (c *ctx) returnedFunc() string {
+	term, n := "", 0
+	ast.Inspect(c.fd.decl.Body, func(nd ast.Node) bool {
+		switch x := nd.(type) {
+		case *ast.FuncLit:
+			return false
+		case *ast.ReturnStmt:
+			n++
+			if len(x.Results) != 1 {
+				term = ""
+				return true
+			}
+			switch r := ast.Unparen(x.Results[0]).(type) {
+			case *ast.FuncLit:
+				term = c.closureBody(r)
+			case *ast.SelectorExpr:
+				// method value mu.Unlock
+				if op := c.lockOp(&ast.CallExpr{Fun: r}); op != "" {
+					term = act(op)
+				}
+			}
+		}
+		return true
+	})
+	if n != 1 {
+		return ""
+	}
+	return term
+}
+
 // closureArgs: the arguments of call that are closures of this function (a literal, or a local variable
 // holding one), by parameter index; each as a thunk that translates the closure body in THIS context.
 func (c *ctx) closureArgs(call *ast.CallExpr, sig *types.Signature) map[int]func() string {
@@ -1056,6 +1197,21 @@ func (c *ctx) assignTo(lhs ast.Expr, rhs ast.Expr, define bool) string {
 				}
 				// local variable: track what it may point into
 				if rhs != nil {
+					if call, ok := ast.Unparen(rhs).(*ast.CallExpr); ok {
+						if se, ok := call.Fun.(*ast.SelectorExpr); ok && se.Sel.Name == "RLocker" && isRWMutex(c.typeOf(se.X)) && c.isInstanceMutex(se.X) {
+							if c.rlockers == nil {
+								c.rlockers = map[*types.Var]bool{}
+							}
+							c.rlockers[v] = true
+						}
+						if c.lastRetFunc != "" {
+							if c.funcVals == nil {
+								c.funcVals = map[*types.Var]string{}
+							}
+							c.funcVals[v] = c.lastRetFunc
+							c.lastRetFunc = ""
+						}
+					}
 					os := oset{}
 					if refLike(v.Type()) {
 						os.add(c.origins(rhs))
@@ -1340,6 +1496,17 @@ func (c *ctx) stmt(s ast.Stmt) string {
 		if op := c.lockOp(x.Call); op != "" {
 			c.defers = append(c.defers, act(op))
 			return "SSkip"
+		}
+		if inner, ok := x.Call.Fun.(*ast.CallExpr); ok && len(x.Call.Args) == 0 {
+			// defer locked(&q.mu)(): the inner call runs now, the function it returns runs at exit
+			now := c.call(inner)
+			if c.lastRetFunc != "" {
+				c.defers = append(c.defers, "(SCall "+c.lastRetFunc+")")
+				c.lastRetFunc = ""
+				return now
+			}
+			c.defers = append(c.defers, act("AExt"))
+			return now
 		}
 		c.defers = append(c.defers, c.call(x.Call))
 		return "SSkip"
@@ -1811,6 +1978,15 @@ func (w *world) findLocking() {
 					if (nm == "Lock" || nm == "Unlock" || nm == "RLock" || nm == "RUnlock") && isRWMutex(c.typeOf(se.X)) {
 						// only mutexes that are fields of a guarded struct count
 						if inner, ok := se.X.(*ast.SelectorExpr); ok {
+							if w.gtypeOf(c.typeOf(inner.X)) != nil {
+								direct[fn] = true
+							}
+						}
+					}
+				}
+				for _, a := range call.Args {
+					if u, ok := ast.Unparen(a).(*ast.UnaryExpr); ok && u.Op == token.AND {
+						if inner, ok := ast.Unparen(u.X).(*ast.SelectorExpr); ok && isRWMutex(c.typeOf(inner)) {
 							if w.gtypeOf(c.typeOf(inner.X)) != nil {
 								direct[fn] = true
 							}
